@@ -1,2 +1,312 @@
--- stub: replaced by the disk engine driver
-def main : IO Unit := pure ()
+/-
+Line-protocol driver for the Disk engine (C09, C10, C12).
+Reply format: `<model>\t<spec>`; spec patterns: `*` anything, `a|b` alternatives, `pre*` prefix.
+
+The model column is the prediction of `NoKVModel/Disk/Model.lean` (steps of every procedure in
+the order given by the extracted configuration, crash = stop before the k-th file operation of
+the named code path, recovery = `recover`).  The spec column states the property directly on
+the recovered contents (acknowledged ⇒ present; prefix of accepted batches, atomic, readable;
+clean reopen = everything) and never looks at the model's step lists.
+-/
+import Driver.Lib
+import NoKVModel.Disk.Model
+import NoKVModel.Disk.Sizes
+
+open NoKV NoKV.Disk Driver
+
+def probeKey : Nat := 999999
+
+structure DSt where
+  cfg : Cfg := Cfg.good
+  prop : String := "C10"
+  st : St := {}
+  by_ : ByteSt := {}
+  line : Nat := 0
+  kill : Option (String × Nat × Nat) := none
+  dead : Option String := none
+  closed : Bool := false
+  opened : Bool := false      -- an `open` line was seen (static well-formedness of the case)
+  killSeen : Bool := false
+  recSeen : Bool := false
+  acked : List Nat := []          -- bids whose call returned
+  started : List (Nat × Nat) := []   -- (bid, #entries) of every transaction that entered the pipeline
+  deriving Repr
+
+def setCfg (d : DSt) (kv : String) : Option DSt :=
+  match kv.splitOn "=" with
+  | [k, v] =>
+    match k with
+    | "db.commitOrder" =>
+      if v == "vlog,apply,sync,ack" then some { d with cfg := { d.cfg with ackAfterSync := true } }
+      else if v == "vlog,apply,ack,sync" then some { d with cfg := { d.cfg with ackAfterSync := false } }
+      else none
+    | "db.applyOrder" =>
+      if v == "head,lsm" then some { d with cfg := { d.cfg with headFirst := true } }
+      else if v == "lsm,head" then some { d with cfg := { d.cfg with headFirst := false } }
+      else none
+    | "lsm.batchSplit" =>
+      if v == "whole" then some { d with cfg := { d.cfg with batchWhole := true } }
+      else if v == "split" then some { d with cfg := { d.cfg with batchWhole := false } }
+      else none
+    | "wal.batchAppend" =>
+      if v == "atomic" then some { d with cfg := { d.cfg with atomicAppend := true } }
+      else if v == "perRecord" then some { d with cfg := { d.cfg with atomicAppend := false } }
+      else none
+    | "flush.order" =>
+      if v == "sst,manifest,remove" then some { d with cfg := { d.cfg with flushOrder := .sstManifestRemove } }
+      else if v == "sst,remove,manifest" then some { d with cfg := { d.cfg with flushOrder := .sstRemoveManifest } }
+      else if v == "manifest,sst,remove" then some { d with cfg := { d.cfg with flushOrder := .manifestSstRemove } }
+      else none
+    | "close.order" =>
+      if v == "flush,sync,close" then some { d with cfg := { d.cfg with closeFlushesWal := true } }
+      else if v == "sync,close" then some { d with cfg := { d.cfg with closeFlushesWal := false } }
+      else none
+    | "vlog.headPersistRule" =>
+      if v == "zero,fidchange,delta" then some { d with cfg := { d.cfg with headOnFidChange := true } }
+      else if v == "zero,delta" then some { d with cfg := { d.cfg with headOnFidChange := false } }
+      else none
+    | "reconcile.rule" =>
+      if v == "dropAboveMaxValid" then some { d with cfg := { d.cfg with reconcileDrops := true } }
+      else if v == "keep" then some { d with cfg := { d.cfg with reconcileDrops := false } }
+      else none
+    -- facts without a model alternative: only the shape the model was written for is accepted
+    | "db.closeOrder" => if v == "commit,lsm,vlog,wal" then some d else none
+    | "db.openOrder" => if v == "verify,wal,lsm,maxver,vlog,seed,commit" then some d else none
+    | "wal.switchOrder" => if v == "flush,sync,close,open" then some d else none
+    | "wal.syncOrder" => if v == "flush,sync" then some d else none
+    | "vlog.writeOrder" => if v == "append,sync" then some d else none
+    | "recovery.logPointerOp" => if v == "le" then some d else none
+    | "oracle.seed" =>
+      -- "<sources>;<plus>"  e.g. mem,imm,tables;plus1
+      match v.splitOn ";" with
+      | [src, plus] =>
+        let ss := src.splitOn ","
+        some { d with cfg := { d.cfg with seedMem := ss.contains "mem" && ss.contains "imm",
+                                          seedTables := ss.contains "tables",
+                                          seedPlusOne := plus == "plus1" } }
+      | _ => none
+    | _ => none
+  | _ => none
+
+/-- parse `k<id>=<len>[e]:<est>:<plen>:<vlen>` / `k<id>=del:...` -/
+def parseEnt? (t : String) : Option ESz :=
+  match t.splitOn ":" with
+  | [kv, est, plen, vlen] =>
+    match kv.splitOn "=" with
+    | [k, _] => do
+      let id ← natOf? (k.drop 1).toString
+      let est ← natOf? est
+      let plen ← natOf? plen
+      let vlen ← natOf? vlen
+      pure { ent := ⟨id, vlen != 0⟩, est := est, plen := plen, vlen := vlen }
+    | _ => none
+  | _ => none
+
+def joinC (l : List String) : String := ",".intercalate l
+
+structure Walk where
+  st : St
+  evs : List String := []
+  dead : Option String := none
+
+/-- execute steps until the k-th file operation of `path` on this line (kill) or the end -/
+def walk (path : String) (kill : Option (String × Nat × Nat)) (line : Nat) (count0 : Nat) (st : St) (steps : List Step) : Walk :=
+  let rec go (w : Walk) (cnt : Nat) : List Step → Walk
+    | [] => w
+    | s :: r =>
+      match s.event w.st with
+      | some ev =>
+        let cnt' := cnt + 1
+        let hit := match kill with
+          | some (p, l, k) => p == path && l == line && k == cnt'
+          | none => false
+        if hit then { w with dead := some (path ++ "." ++ ev) }
+        else go { w with st := exec w.st s, evs := w.evs ++ [ev] } cnt' r
+      | none => go { w with st := exec w.st s } cnt r
+  go { st := st } count0 steps
+
+/-- flush every immutable memtable (FIFO), as the flush worker does once the foreground call returned -/
+def flushAll (c : Cfg) (kill : Option (String × Nat × Nat)) (line : Nat) (st : St) : Walk :=
+  let ids := immIds st.segs
+  ids.foldl (fun (w : Walk) id =>
+    match w.dead with
+    | some _ => w
+    | none =>
+      let w2 := walk "F" kill line w.evs.length w.st (flushSteps c id)
+      { st := w2.st, evs := w.evs ++ w2.evs, dead := w2.dead }) { st := st }
+
+/-! ### canonical dump of a recovered / reopened store and the specification verdicts -/
+
+def insertNat (a : Nat) : List Nat → List Nat
+  | [] => [a]
+  | x :: r => if a < x then a :: x :: r else if a = x then x :: r else x :: insertNat a r
+
+def totalOf (started : List (Nat × Nat)) (bid : Nat) : Option Nat :=
+  (started.find? (fun p => p.1 == bid)).map (·.2)
+
+structure Grp where
+  ver : Nat
+  bid : Nat
+  present : Nat
+  dangling : Nat
+  total : Option Nat
+
+def groups (c : Cfg) (st : St) (started : List (Nat × Nat)) : List Grp :=
+  let recs := (written st).filter (fun r => r.key != probeKey)
+  let vers := recs.foldl (fun acc r => insertNat r.ver acc) []
+  vers.map fun v =>
+    let rs := recs.filter (fun r => r.ver == v)
+    let bid := match rs with
+      | r :: _ => r.bid
+      | [] => 0
+    { ver := v, bid := bid, present := (rs.filter (readable c st)).length,
+      dangling := (rs.filter (fun r => !readable c st r)).length, total := totalOf started bid }
+
+def grpStr (g : Grp) : String :=
+  let t := match g.total with
+    | some n => toString n
+    | none => "?"
+  s!"v{g.ver}:{g.present}/{t}" ++ (if g.dangling > 0 then s!"!d{g.dangling}" else "")
+
+def grpFull (g : Grp) : Bool := g.total == some (g.present + g.dangling)
+
+/-- `acked=`: acknowledged batches that are not completely present and readable -/
+def ackedVerdict (sync : Bool) (acked : List Nat) (gs : List Grp) : String :=
+  if !sync then "na" else
+  let lost := acked.filter (fun b => !(gs.any (fun g => g.bid == b && g.total == some g.present)))
+  if lost.isEmpty then "ok" else s!"lost:{lost.length}"
+
+/-- `c10=`: contents are a prefix of the accepted batches, batches atomic, every value readable -/
+def c10Verdict (started : List (Nat × Nat)) (gs : List Grp) : String :=
+  let partial_ := gs.any (fun g => !grpFull g)
+  -- started batches in order; `has b` = some entry of b is present
+  let has := fun (b : Nat) => gs.any (fun g => g.bid == b)
+  let rec gap : Bool → List (Nat × Nat) → Bool
+    | _, [] => false
+    | missingBefore, (b, _) :: r => (missingBefore && has b) || gap (missingBefore || !has b) r
+  let dang := gs.any (fun g => g.dangling > 0)
+  let reasons := (if partial_ then ["partial"] else []) ++ (if gap false started then ["gap"] else []) ++
+    (if dang then ["dangling"] else [])
+  if reasons.isEmpty then "ok" else "bad:" ++ "+".intercalate reasons
+
+def fullVerdict (started : List (Nat × Nat)) (gs : List Grp) : String :=
+  if started.all (fun (b, n) => gs.any (fun g => g.bid == b && g.present == n && g.dangling == 0)) then "ok" else "no"
+
+def rawStr (gs : List Grp) : String :=
+  if gs.isEmpty then "empty" else " ".intercalate (gs.map grpStr)
+
+def dumpLine (prop : String) (sync : Bool) (acked : List Nat) (started : List (Nat × Nat)) (gs : List Grp) (killed : String) : String :=
+  let a := "acked=" ++ ackedVerdict sync acked gs
+  let c := "c10=" ++ c10Verdict started gs
+  let f := "full=" ++ fullVerdict started gs
+  let fields := if prop == "C09" then [a, c, f] else if prop == "C12" then [f, c, a] else [c, a, f]
+  "open=ok " ++ " ".intercalate fields ++ " raw=[" ++ rawStr gs ++ "] reads=ok killed=" ++ killed
+
+def dumpSpec (prop : String) (clean : Bool) : String :=
+  if prop == "C09" then "open=ok acked=ok*|open=ok acked=na*"
+  else if prop == "C12" then (if clean then "open=ok full=ok c10=ok*" else "open=ok*")
+  else "open=ok c10=ok*"
+
+def reopen (d : DSt) (killed : String) (clean : Bool) : DSt × String :=
+  let st1 := recover d.cfg d.st
+  let gs := groups d.cfg st1 d.started
+  let out := dumpLine d.prop d.st.sync d.acked d.started gs killed
+  -- immutable memtables recovered from the WAL are flushed right after open
+  let w := flushAll d.cfg none d.line st1
+  -- after a crash the next versions may be reused by later transactions: only what survived counts as started
+  let started' := d.started.filter (fun (b, _) => gs.any (fun g => g.bid == b))
+  let lastNonEmpty := match st1.segs.getLast? with
+    | some sg => !sg.recs.isEmpty
+    | none => false
+  ({ d with st := w.st, dead := none, closed := false, started := started',
+            acked := d.acked.filter (fun b => gs.any (fun g => g.bid == b)),
+            by_ := { d.by_ with walN := 0, memWal := if lastNonEmpty then d.by_.memWal else 0,
+                                vMap := d.by_.vOff } },
+   out ++ "\t" ++ dumpSpec d.prop clean)
+
+def step (d0 : DSt) (toks : List String) : DSt × String :=
+  match toks with
+  | "cfg" :: kvs =>
+    match kvs.foldlM setCfg d0 with
+    | some d => (d, "ok")
+    | none => (d0, "bad-cfg")
+  | _ =>
+  let d := { d0 with line := d0.line + 1 }
+  let line := d0.line
+  let isDead := d.dead.isSome
+  match toks with
+  | ["prop", p] => ({ d with prop := p }, "ok\t*")
+  | ["wait", _] => (d, (if isDead then "-" else "ok") ++ "\t*")
+  | "open" :: args =>
+    if d.opened then (d, "malformed\t*") else
+    let sync := (kv? args "sync").bind natOf? |>.getD 0
+    let mt := (kv? args "mt").bind natOf? |>.getD 0
+    let vf := (kv? args "vf").bind natOf? |>.getD 0
+    ({ d with opened := true, st := { sync := sync != 0 }, by_ := { mt := mt, vf := vf, vMap := vf } }, "ok\t*")
+  | ["kill", p, l, k] =>
+    if d.killSeen || !d.opened then ({ d with killSeen := true }, "malformed\t*") else
+    match natOf? l, natOf? k with
+    | some l, some k => ({ d with killSeen := true, kill := some (p, l, k) }, (if isDead then "-" else "armed") ++ "\t*")
+    | _, _ => (d, "bad-op")
+  | "txn" :: ents =>
+    if !d.opened then (d, "malformed\t*") else
+    if isDead then (d, "- c=[] f=[]\t*") else
+    if d.closed then (d, "nodb c=[] f=[]\t*") else
+    match ents.mapM parseEnt? with
+    | none => (d, "bad-op")
+    | some es =>
+      let lastIsActive := d.st.lastHead == some d.st.vactive
+      let (decs, delta, by1) := decide_ d.cfg d.by_ lastIsActive es
+      let steps := commitSteps d.cfg d.st line decs delta
+      let w := walk "C" d.kill line 0 d.st steps
+      let headLogged := w.evs.contains "write:manifest"
+      let by2 := { by1 with walN := if d.st.sync then 0 else by1.walN,
+                            headOff := if headLogged then by1.vOff else by1.headOff }
+      let started := d.started ++ [(line, es.length)]
+      match w.dead with
+      | some k =>
+        ({ d with st := w.st, dead := some k, started := started, by_ := by2 },
+         s!"- c=[{joinC w.evs}] f=[]\t*")
+      | none =>
+        let wf := flushAll d.cfg d.kill line w.st
+        ({ d with st := wf.st, dead := wf.dead, started := started, acked := d.acked ++ [line], by_ := by2 },
+         s!"ack c=[{joinC w.evs}] f=[{joinC wf.evs}]\t*")
+  | ["close"] =>
+    if !d.opened then (d, "malformed\t*") else
+    if isDead then (d, "- x=[]\t*") else
+    if d.closed then (d, "nodb x=[]\t*") else
+      let w := walk "X" d.kill line 0 d.st (closeSteps d.cfg d.st)
+      match w.dead with
+      | some k => ({ d with st := w.st, dead := some k }, s!"- x=[{joinC w.evs}]\t*")
+      | none => ({ d with st := w.st, closed := true, by_ := { d.by_ with walN := 0 } }, s!"ok x=[{joinC w.evs}]\t*")
+  | ["recover"] =>
+    if d.recSeen || !d.opened then ({ d with recSeen := true }, "malformed\t*") else
+    -- the victim is dead (or dies here, between two calls); a second process opens the directory
+    let killed := match d.dead with
+      | some k => k
+      | none => if d.closed then "none" else "N.now"
+    let (d', out) := reopen { d with recSeen := true } killed (d.dead.isNone && d.closed)
+    ({ d' with kill := none }, out)
+  | ["reopen"] =>
+    if !d.opened then (d, "malformed\t*") else
+    if isDead then (d, "-\t*") else
+    if d.closed then reopen d "none" true else (d, "still-open\t*")
+  | ["probe", est, plen] =>
+    if !d.opened then (d, "malformed\t*") else
+    if isDead then (d, "-\t*") else
+    if d.closed then (d, "nodb\t*") else
+    match natOf? est, natOf? plen with
+    | some est, some plen =>
+      let mv := maxVer ((written d.st).filter (fun r => r.key != probeKey))
+      let nt := d.st.nextTs
+      let rel := if nt > mv then s!"gt:+{nt - mv}" else s!"le:+-{mv - nt}"
+      let e : ESz := { ent := ⟨probeKey, false⟩, est := est, plen := plen, vlen := 0 }
+      let (decs, delta, by1) := decide_ d.cfg d.by_ false [e]
+      let w := walk "C" none line 0 d.st (commitSteps d.cfg d.st line decs delta)
+      let wf := flushAll d.cfg none line w.st
+      let spec := if d.prop == "C12" then "probe=gt*" else "*"
+      ({ d with st := wf.st, by_ := { by1 with walN := if d.st.sync then 0 else by1.walN } }, s!"probe={rel}\t{spec}")
+    | _, _ => (d, "bad-op")
+  | _ => (d, "bad-op")
+
+def main : IO Unit := Driver.loop ({} : DSt) step
